@@ -96,4 +96,12 @@ pub broadcast group group_instant_axioms { axiom_instant_add, axiom_instant_obey
 pub assume_specification<T: Ord> [ <[T]>::sort ] (s: &mut [T])
   ensures final(s)@.len() == old(s)@.len();
 pub assume_specification<'a> [<std::str::Chars<'a> as std::iter::Iterator>::count] (c: std::str::Chars<'a>) -> usize;
-pub assume_specification<'a, T: Copy + 'a, A: std::alloc::Allocator, I: std::iter::IntoIterator<Item = &'a T>> [<std::vec::Vec<T, A> as std::iter::Extend<&'a T>>::extend] (v: &mut std::vec::Vec<T, A>, i: I);
+// Vec::extend over references to Copy values appends copies of the items the argument yields, in order (std documentation of `Extend<&'a T> for Vec<T>`);
+// what a `&Vec<T>` yields is its elements in order (axiom_ext_items_vec). Both are ASSUMED.
+pub uninterp spec fn ext_items<T, I>(i: I) -> Seq<T>;
+pub assume_specification<'a, T: Copy + 'a, A: std::alloc::Allocator, I: std::iter::IntoIterator<Item = &'a T>> [<std::vec::Vec<T, A> as std::iter::Extend<&'a T>>::extend] (v: &mut std::vec::Vec<T, A>, i: I)
+  ensures final(v)@ == old(v)@ + ext_items::<T, I>(i);
+#[verifier::external_body]
+pub proof fn axiom_ext_items_vec<'a, T>(x: &'a Vec<T>)
+  ensures ext_items::<T, &'a Vec<T>>(x) == x@
+{}
